@@ -539,7 +539,7 @@ def generate(repo):
     lines = ["(* GENERATED by translate/tr_C15_wrapgrid.py from the clang AST of the current sources",
              "   (include/%s, Grid.hpp; instantiations WrappableGrid<int, 2> and <int, 3>).  Do not edit. *)" % WG,
              "From Coq Require Import ZArith List.", "From Romea Require Import WrapGridImp.", "Import ListNotations.",
-             "Open Scope Z_scope.", ""]
+             "Local Open Scope Z_scope.", ""]
     errors = []
     try:
         with ThreadPoolExecutor(max_workers=2) as ex:
